@@ -199,6 +199,8 @@ def gen_meshes(ctx):
             o['ragged'] = rng.random() < 0.5
             meshes.append(G.shell_mesh(rng, ks, o))
         meshes.append(G.hexprism_mesh(rng, G.random_opts(rng, jitter_ok=False)))
+        for ks in (['hex'], ['prism'], ['pyr'], ['hex', 'prism', 'pyr']):
+            meshes.append(G.frustum_mesh(rng, ks, G.random_opts(rng, jitter_ok=False)))
     # mixed meshes whose blocks are stored in id order AND ones that are not
     for rep in range(2 * n):
         for sh in (False, True):
